@@ -1,4 +1,5 @@
-// object with clean_up(): nobody touches it, so it becomes eligible again CleanupDuration after each call
+// objects with clean_up(): three clones; nobody touches them, so they become eligible again CleanupDuration after each call
 #include "/c09/c09.h"
-void touch() { }
-int clean_up(int inh) { T("clean_up"); L("clean_up"); return 1; }
+int id = -1;
+void set_id(int i) { id = i; }
+int clean_up(int inh) { if (id < 0) return 0; L("clean_up " + id); TP("clean_up", id); return 1; }
